@@ -1,6 +1,7 @@
 package main
 
 import (
+	"bytes"
 	"os"
 	"fmt"
 	"strings"
@@ -120,6 +121,7 @@ func runC04(ctx *Ctx) {
 		}
 		contentCorrespondence(ctx, docs, "generated documents and the fixture files")
 	}
+	c04TemplateFiles(ctx, r.Fork())
 	n := ctx.Budget(1500, 100000)
 	rejected := 0
 	for i := 0; i < n; i++ {
@@ -156,4 +158,112 @@ func runC04(ctx *Ctx) {
 		}
 	}
 	ctx.Cov.Component("catalog of generated documents vs Expected(model) (specification on the implementation)", ctx.Cov.Evaluations, len(ctx.Violations), fmt.Sprintf("%d rejected", rejected))
+}
+
+
+// c04TemplateFiles: projects whose files are written from ONE template (same layout, names of the same length), so that
+// directives of different files have the same byte offsets: every interaction must carry the Params / Result / Query /
+// Headers / Path schema its own file declares, and the catalog must equal that of the same text in a single file.
+func c04TemplateFiles(ctx *Ctx, r *Rng) {
+	n := ctx.Budget(60, 3000)
+	cases := 0
+	for it := 0; it < n && len(ctx.Violations) < 10; it++ {
+		k := 2 + r.Intn(3)
+		parts := r.Intn(31) + 1 // which sections the template has
+		tmpl := func(i int) string {
+			var b strings.Builder
+			if parts&1 != 0 {
+				fmt.Fprintf(&b, "URL /r%d\n  Protocol json-rpc-2.0\n  Method m%d\n    Params\n    {\"p%d\": %d}\n    Result\n    {\"q%d\": %d}\n", i, i, i, i, i, i)
+			}
+			fmt.Fprintf(&b, "GET /g%d/{v%d}\n", i, i)
+			if parts&2 != 0 {
+				fmt.Fprintf(&b, "  Path\n  {\"v%d\": %d}\n", i, i)
+			}
+			if parts&4 != 0 {
+				fmt.Fprintf(&b, "  Query\n  {\"u%d\": %d}\n", i, i)
+			}
+			if parts&8 != 0 {
+				fmt.Fprintf(&b, "  Request\n    Headers\n    {\"h%d\": %d}\n    Body any\n", i, i)
+			}
+			fmt.Fprintf(&b, "  200\n")
+			if parts&16 != 0 {
+				fmt.Fprintf(&b, "    Headers\n    {\"w%d\": %d}\n", i, i)
+			}
+			fmt.Fprintf(&b, "    Body\n    {\"b%d\": %d}\n", i, i)
+			return b.String()
+		}
+		head := "JSIGHT 0.3\n"
+		pad := "# 23456789\n" // a comment line of the length of the JSIGHT line
+		if r.Chance(1, 4) {
+			pad = "# c\n" // control: different offsets
+		}
+		files := map[string][]byte{}
+		root := head + tmpl(0)
+		single := head + tmpl(0)
+		for i := 1; i < k; i++ {
+			name := fmt.Sprintf("f%d.jst", i)
+			files[name] = []byte(pad + tmpl(i))
+			root += "INCLUDE " + name + "\n"
+			single += pad + tmpl(i)
+		}
+		files["root.jst"] = []byte(root)
+		p := Project{Files: files, Root: "root.jst"}
+		res := RunProject(p, false)
+		one := RunProject(SingleFile([]byte(single)), false)
+		cases++
+		ctx.Cov.Count([]byte(root+string(files["f1.jst"])), true)
+		ctx.Cov.Hit("template project")
+		in := projectInput(p)
+		in["op"] = "project"
+		if res.Panic != "" || one.Panic != "" {
+			continue
+		}
+		if !res.Accepted() || !one.Accepted() {
+			ctx.Violate(Violation{Kind: "wrong-output", Site: "pipeline", What: "a well-formed project of template files is not accepted: " + res.Verdict() + " / as one file: " + one.Verdict(), Input: in, Signature: "template-rejected"})
+			continue
+		}
+		if !bytes.Equal(res.JSON, one.JSON) {
+			ctx.Violate(Violation{Kind: "wrong-output", Site: "pipeline", What: "the catalog of a project of template files differs from the catalog of the same text in one file: " + firstDiff(res.JSON, one.JSON),
+				Input: in, Observed: trunc(string(res.JSON), 1500), Expected: trunc(string(one.JSON), 1500), Signature: "template-catalog"})
+			continue
+		}
+		// every interaction carries the property names of its own file
+		doc, _, err := ParseOJSON(res.JSON)
+		if err != nil {
+			continue
+		}
+		js := string(res.JSON)
+		for i := 0; i < k; i++ {
+			get := doc.Path("interactions", fmt.Sprintf("http GET /g%d/{v%d}", i, i))
+			want := []string{fmt.Sprintf("\"b%d\"", i)}
+			if parts&4 != 0 {
+				want = append(want, fmt.Sprintf("\"u%d\"", i))
+			}
+			if parts&8 != 0 {
+				want = append(want, fmt.Sprintf("\"h%d\"", i))
+			}
+			if parts&16 != 0 {
+				want = append(want, fmt.Sprintf("\"w%d\"", i))
+			}
+			if parts&2 != 0 {
+				want = append(want, fmt.Sprintf("\"v%d\"", i))
+			}
+			gs := get.Canon(false)
+			for _, w := range want {
+				if !strings.Contains(gs, w) {
+					ctx.Violate(Violation{Kind: "wrong-output", Site: "pipeline", What: fmt.Sprintf("interaction GET /g%d/{v%d} does not carry the property %s its file declares", i, i, w), Input: in, Observed: trunc(gs, 1200), Signature: "template-content"})
+				}
+			}
+			if parts&1 != 0 {
+				ms := doc.Path("interactions", fmt.Sprintf("json-rpc-2.0 m%d /r%d", i, i)).Canon(false)
+				for _, w := range []string{fmt.Sprintf("\"p%d\"", i), fmt.Sprintf("\"q%d\"", i)} {
+					if !strings.Contains(ms, w) {
+						ctx.Violate(Violation{Kind: "wrong-output", Site: "pipeline", What: fmt.Sprintf("JSON-RPC method m%d does not carry the property %s its file declares", i, w), Input: in, Observed: trunc(ms, 1200), Signature: "template-content"})
+					}
+				}
+			}
+		}
+		_ = js
+	}
+	ctx.Cov.Component("projects of files written from one template (same byte offsets in different files): catalog = catalog of the one-file text, every interaction carries its own file's schemas", cases, len(ctx.Violations), "")
 }
